@@ -165,6 +165,20 @@ C02(p, t, q) ==
            \/ a = "StepReady" /\ b = "Completed" /\ k = NPlan(p)
      \/ a = "StepReady" /\ j = k + 1 /\ k < NPlan(p) /\ b = "BeforeStepUpgrade"
 
+\* a plan edit that leaves the current step able to cover what has been released does not request a step change:
+\* the controller re-runs the current step (so its pause still has to be satisfied), it never moves on
+RawReplicas(st, R) == IF IsPct(st) THEN ScaledUp(st.pct, R) ELSE st.rep
+C02edit_A(p, t, q) ==
+  (/\ t.base = "ro" /\ p.ro.exists /\ q.ro.exists /\ p.ro.hasSub /\ q.ro.hasSub
+   /\ p.ro.phase = "Progressing" /\ p.ro.reason = "InRolling" /\ q.ro.reason = "InRolling"
+   /\ PlanEdited(p) /\ ~UserJump(p) /\ ~p.user.paused /\ ~RollbackSeen(p) /\ ~Superseded(p)
+   /\ p.wl.exists /\ p.wl.genOk /\ p.ro.state # "Completed"
+   /\ p.br.exists /\ p.br.partition >= 0 /\ p.br.partition + 1 <= Len(p.br.plan)
+   /\ p.ro.step \in 1..NPlan(p)
+   /\ RawReplicas(p.br.plan[p.br.partition + 1], p.wl.R) <= RawReplicas(p.plan[p.ro.step], p.wl.R))
+C02edit(p, t, q) ==
+  C02edit_A(p, t, q) => (q.ro.step = p.ro.step /\ q.ro.state \in {"BeforeStepUpgrade", "StepUpgrade", "StepTrafficRouting"})
+
 \* while the rollout is marked paused the Rollout controller makes no forward progress
 C02pause_A(p, t, q) ==
   (/\ t.base = "ro" /\ p.user.paused /\ Rolling(p) /\ q.ro.exists
@@ -214,7 +228,10 @@ C03b_A(p, t, q) ==
   (/\ t.base = "ro" /\ p.ro.exists /\ q.ro.exists /\ p.ro.hasSub /\ q.ro.hasSub
    /\ p.ro.reason = "InRolling"
    /\ p.ro.state = "StepTrafficRouting" /\ q.ro.state = "StepMetricsAnalysis" /\ p.ro.step = q.ro.step
-   /\ q.ro.step \in 1..NPlan(q) /\ HasTraffic(q.plan[q.ro.step]) /\ q.net.hasSvc)
+   /\ q.ro.step \in 1..NPlan(q) /\ HasTraffic(q.plan[q.ro.step]) /\ q.net.hasSvc
+   \* a partition-style step that replaces every stable pod is not routed at all (the documented ingress-nginx
+   \* bypass; since FX-C04-traffic-routing-at-full-replacement-step also when entered by a jump / plan change)
+   /\ ~FullPartitionStep(q, q.ro.step))
 C03b(p, t, q) ==
   C03b_A(p, t, q)
   => RoutedFor(q, q.ro.step)
@@ -417,7 +434,7 @@ C18b(s) ==
 (***************************************************************************)
 (* evaluation of everything on one transition                              *)
 (***************************************************************************)
-ActionProps == {"C01a", "C01ro", "C01b", "C01c", "C02", "C02pause", "C02promote",
+ActionProps == {"C01a", "C01ro", "C01b", "C01c", "C02", "C02pause", "C02promote", "C02edit",
                 "C03a", "C03b", "C03c", "C09", "C10a", "C11a", "C11b", "C11c", "C11d", "C18a", "C18br"}
 StateProps  == {"C04a", "C04b", "C04c", "C05", "C07", "C10b", "C18b"}
 MidProps    == {"C04a", "C04b", "C04c"}   \* also evaluated after every single API write (crash points)
@@ -427,6 +444,7 @@ ActHolds(name, p, t, q) ==
     [] name = "C01b" -> C01b(p, t, q)    [] name = "C01c" -> C01c(p, t, q)
     [] name = "C02" -> C02(p, t, q)      [] name = "C02pause" -> C02pause(p, t, q)
     [] name = "C02promote" -> C02promote(p, t, q)
+    [] name = "C02edit" -> C02edit(p, t, q)
     [] name = "C03a" -> C03a(p, t, q)    [] name = "C03b" -> C03b(p, t, q)
     [] name = "C03c" -> C03c(p, t, q)    [] name = "C09" -> C09(p, t, q)
     [] name = "C10a" -> C10a(p, t, q)
@@ -439,6 +457,7 @@ ActAnte(name, p, t, q) ==
     [] name = "C01b" -> C01b_A(p, t, q)    [] name = "C01c" -> C01c_A(p, t, q)
     [] name = "C02" -> C02_A(p, t, q)      [] name = "C02pause" -> C02pause_A(p, t, q)
     [] name = "C02promote" -> C02promote_A(p, t, q)
+    [] name = "C02edit" -> C02edit_A(p, t, q)
     [] name = "C03a" -> C03a_A(p, t, q)    [] name = "C03b" -> C03b_A(p, t, q)
     [] name = "C03c" -> C03c_A(p, t, q)    [] name = "C09" -> C09_A(p, t, q)
     [] name = "C10a" -> C10a_A(p, t, q)
